@@ -77,6 +77,7 @@ def check(run):
     run.guard(GR.right_loc, funcs, 'C05')
     run.guard(GR.build_loop, funcs, 'C05')
     run.guard(exact_tie_breaker)
+    run.guard(GR.intersect_guard, funcs, 'C05')    # panic site geometry.rs: only for exactly dependent normals
     kanirun.run(run, 'C05', KANI_QUICK if run.tier == 'quick' else KANI_THOROUGH, jobs=12)
     run.guard(known_findings)
     run.assume('bit-precise claim: positions in [A - W - h, A + 2W] as computed in f64; a mirror image that rounding pushes a few ulps above A + 2W is covered only by the real-arithmetic obligation (margin W/8)')
